@@ -1,5 +1,6 @@
 import Driver.Ops
 import Vanguard.Spec.Codes
+import Vanguard.Spec.Timeout
 /-!
   Oracle mode: `vgdriver spec Cxx` reads lines `op args…<TAB>result` (result = what the
   *implementation* printed) and evaluates the executable specification the theorems of
@@ -11,6 +12,12 @@ open Vanguard
 def parseOptNat : List String → Option (Option Nat)
   | ["panic"] => some none
   | [n] => n.toNat?.map some
+  | _ => none
+
+def parseExtracted : List String → Option (Option (Option Int))
+  | ["reject"] => some none
+  | ["none"] => some (some none)
+  | ["some", d] => d.toInt?.map (fun x => some (some x))
   | _ => none
 
 def verdict (b : Bool) (why : String) : String := if b then "ok" else "fail " ++ why
@@ -33,6 +40,28 @@ def specCheck (prop : String) (op res : List String) : String :=
     | some m, [r] => match fromHex r with
       | some enc => verdict (Spec.printableAscii enc && grpcPercentDecode enc == some m)
           "encoded grpc-message not printable or does not decode to the message"
+      | none => "fail unparsable result"
+    | _, _ => "fail unparsable result"
+  | "C12", ["grpc_extract", h] =>
+    match fromHex h, parseExtracted res with
+    | some s, some out => verdict (Spec.grpcExtractOk s out)
+        "Grpc-Timeout: valid value rejected/altered, or definitely malformed value accepted"
+    | _, _ => "fail unparsable result"
+  | "C12", ["connect_extract", h] =>
+    match fromHex h, parseExtracted res with
+    | some s, some out => verdict (Spec.connectExtractOk s out)
+        "Connect-Timeout-Ms: valid value rejected/altered, or definitely malformed value accepted"
+    | _, _ => "fail unparsable result"
+  | "C12", ["grpc_enc", n] =>
+    match n.toInt?, res with
+    | some d, [r] => match fromHex r with
+      | some enc => verdict (Spec.grpcEncodeOk d enc) "Grpc-Timeout sent to backend is invalid, exceeds the client's or is short by a unit or more"
+      | none => "fail unparsable result"
+    | _, _ => "fail unparsable result"
+  | "C12", ["connect_enc", n] =>
+    match n.toInt?, res with
+    | some d, [r] => match fromHex r with
+      | some enc => verdict (Spec.connectEncodeOk d enc) "Connect-Timeout-Ms sent to backend is invalid, exceeds the client's or is short by 1ms or more"
       | none => "fail unparsable result"
     | _, _ => "fail unparsable result"
   | _, _ => "nospec"
